@@ -379,6 +379,30 @@ fn main() {
             out.flush().unwrap();
             println!("{{\"schedules\": {}}}", n);
         }
+        "conc-stress" => {
+            // OS-scheduled threads hammering one key (no scheduler), barrier-separated rounds
+            let kind = get("kind", "C03");
+            let seed: u64 = get("seed", "1").parse().unwrap();
+            let count: usize = get("count", "50").parse().unwrap();
+            let rounds: usize = get("rounds", "20").parse().unwrap();
+            let mut out = BufWriter::new(File::create(get("out", "stress.ndjson")).unwrap());
+            let mut rng = SmallRng::seed_from_u64(seed);
+            let progs = concgen::stress(&kind, count, &mut rng);
+            let mut n = 0;
+            let mut hangs = 0;
+            for (i, p) in progs.iter().enumerate() {
+                writeln!(out, "{}", conc::program_event(i + 1, p)).unwrap();
+                for r in 0..rounds {
+                    n += 1;
+                    if !conc::stress_round(p, &mut out, i + 1, r + 1) {
+                        hangs += 1;
+                        break;
+                    }
+                }
+            }
+            out.flush().unwrap();
+            println!("{{\"programs\": {}, \"runs\": {}, \"incomplete\": {}}}", progs.len(), n, hangs);
+        }
         "tcp-wire" => {
             // frame streams over a socket, every stream under many segmentations
             let seed: u64 = get("seed", "1").parse().unwrap();
